@@ -38,6 +38,9 @@ pub const KNOWN_SIZE: &[Kind] = &[
     Kind::CopiedArrRef,
 ];
 
+/// multiplier of the quick budgets of the guard-off campaigns (they are cheap)
+pub const PLAIN_BOOST: u64 = 4;
+
 pub fn scale_cases(ctx: &Ctx, quick: u64, thorough_factor: u64) -> u64 {
     let f = std::env::var("VERIF_SCALE")
         .ok()
@@ -517,7 +520,7 @@ pub fn check(ctx: &mut Ctx) -> Option<Meta> {
         "C10" => {
             crate::replay::replay_saved(ctx, "seq", &eval_c10_seq);
             let cfg = cfg_c10(thorough);
-            let n = scale_cases(ctx, 300_000, 30);
+            let n = scale_cases(ctx, PLAIN_BOOST * 300_000, 30);
             let rule = "E2 sequential histories over all source kinds ending in into_seq_iter; oracle: remainder = src[delivered..] in order (suffix after skip), by value, identity and address; non-trivial = cursor at a boundary (0, ==len, >len, skipped) or >=2 different operation kinds before the conversion; distinct by case hash".to_string();
             ctx.run_campaign(&Campaign {
                 name: "seq-into_seq".into(),
@@ -545,7 +548,7 @@ pub fn check(ctx: &mut Ctx) -> Option<Meta> {
         "C08" => {
             crate::replay::replay_saved(ctx, "seq", &eval_c08_seq);
             let cfg = cfg_c08(thorough);
-            let n = scale_cases(ctx, 200_000, 50);
+            let n = scale_cases(ctx, PLAIN_BOOST * 200_000, 50);
             let rule = "E2 sequential histories on consuming kinds (Vec, [T;N], owning wrapped iterator) with destructor-counting elements (24-byte and zero-sized), ending in drop or into_seq_iter; oracle: identity ledger - every element dropped exactly once, never while a caller owns it, at most one owner; non-trivial = non-empty undelivered remainder, unconsumed chunk part, or skip; distinct by case hash".to_string();
             ctx.run_campaign(&Campaign {
                 name: "seq-ledger".into(),
@@ -561,7 +564,7 @@ pub fn check(ctx: &mut Ctx) -> Option<Meta> {
             cfg_f.fault_sites = vec![FaultSite::Closure, FaultSite::Closure, FaultSite::ProbeNext];
             ctx.run_campaign(&Campaign {
                 name: "seq-ledger-after-panic".into(),
-                cases: scale_cases(ctx, 40_000, 30),
+                cases: scale_cases(ctx, PLAIN_BOOST * 40_000, 30),
                 make_strategy: &|| case_strategy(&cfg_f),
                 run: &eval_c08_seq_fault,
                 rule: "the same ledger oracle when a for_each / fold closure or the wrapped iterator panics at a generated point (the panic unwinds through a live chunk)".into(),
@@ -593,7 +596,7 @@ pub fn check(ctx: &mut Ctx) -> Option<Meta> {
             if thorough {
                 ctx.run_campaign(&Campaign {
                     name: "seq-grid-neighbours".into(),
-                    cases: scale_cases(ctx, 20_000, 50),
+                    cases: scale_cases(ctx, PLAIN_BOOST * 20_000, 50),
                     make_strategy: &crate::c16::random_strategy,
                     run: &crate::c16::eval_c16,
                     rule: "random boundary ranges / chunk sizes with random tails".into(),
@@ -608,7 +611,7 @@ pub fn check(ctx: &mut Ctx) -> Option<Meta> {
             } else {
                 ctx.run_campaign(&Campaign {
                     name: "seq-grid-neighbours".into(),
-                    cases: scale_cases(ctx, 20_000, 1),
+                    cases: scale_cases(ctx, PLAIN_BOOST * 20_000, 1),
                     make_strategy: &crate::c16::random_strategy,
                     run: &crate::c16::eval_c16,
                     rule: "random boundary ranges / chunk sizes with random tails".into(),
@@ -639,7 +642,7 @@ pub fn check(ctx: &mut Ctx) -> Option<Meta> {
             let rule = "ordinary sequential histories over all kinds (chunk sizes <= len+3) executed by two builds of the crate and the harness (debug-assertions + overflow-checks on / both off, same optimisation level) in separate processes; oracle: the transcripts (every result, panics, process aborts, destructor ledger, 'allocation balance is zero') are identical; non-trivial = the history contains a chunk pull or ends a consuming iterator; distinct by case hash".to_string();
             ctx.run_campaign(&Campaign {
                 name: "seq-twins".into(),
-                cases: scale_cases(ctx, 30_000, 30),
+                cases: scale_cases(ctx, PLAIN_BOOST * 30_000, 30),
                 make_strategy: &|| case_strategy(&cfg),
                 run: &crate::twin::eval_c17,
                 rule: rule.clone(),
@@ -671,7 +674,7 @@ pub fn check(ctx: &mut Ctx) -> Option<Meta> {
             let rule = "E2 lock-step: every cloned()/copied() adaptor kind (over slice, Vec, array and a wrapped iterator of references with exact/inexact/unbounded hints) and its underlying reference-yielding iterator are built over the same data and driven by the same generated operation list incl. into_seq_iter; oracle: operation by operation equal indices, chunk boundaries, len() trajectories, try_get_len / has_more, end and skip behaviour, items are owned clones of the same elements, source intact, clone ledger balanced; non-trivial = history contains a one-shot chunk, a buffered chunk, a length query and a skip or into_seq_iter".to_string();
             ctx.run_campaign(&Campaign {
                 name: "seq-lockstep".into(),
-                cases: scale_cases(ctx, 200_000, 30),
+                cases: scale_cases(ctx, PLAIN_BOOST * 200_000, 30),
                 make_strategy: &|| case_strategy(&cfg),
                 run: &crate::lockstep::eval_c13,
                 rule: rule.clone(),
@@ -687,7 +690,7 @@ pub fn check(ctx: &mut Ctx) -> Option<Meta> {
             let rule = "E2 with several iterators: a collection (slice, Vec, array, range; every non-consuming constructor) and an interleaved history of 'new iterator', 'clone iterator i' and pull / skip / length operations on iterator j; oracle: one model cursor per iterator (a clone starts at the original's position), every delivered reference has the address of the collection element at its index, afterwards the collection is unchanged, nothing was cloned or dropped, and it can be mutated and dropped normally; non-trivial = >=2 iterators at different positions and >=1 clone taken after progress".to_string();
             ctx.run_campaign(&Campaign {
                 name: "seq-multi-iterator".into(),
-                cases: scale_cases(ctx, 200_000, 30),
+                cases: scale_cases(ctx, PLAIN_BOOST * 200_000, 30),
                 make_strategy: &|| crate::multi::strategy(thorough),
                 run: &crate::multi::eval_c19,
                 rule: rule.clone(),
@@ -706,7 +709,7 @@ pub fn check(ctx: &mut Ctx) -> Option<Meta> {
             let rule = "(a) programs: the finite grammar of client programs (18 ways to obtain an iterator x 6 element types x construct / share in thread::scope / move into thread::spawn; wrapped iterators capturing Rc vs Arc; 14 borrow probes x source kinds), each negative program paired with a valid twin that must compile; oracle: rustc rejects the negative program with an error of the expected class (E0277/E0599 for thread safety, E0499/E0502/E0505/E0506/E0597/E0716 for borrows); (b) sequences over all safe public calls on consuming iterators incl. AtomicIter::{fetch_one, fetch_n, progress_and_get_begin_idx, early_exit} (get / AtomicCounter::store are the known finding D10 and are excluded by construction, their minimal cases are replayed); oracle: identity ledger - no element has two owners; non-trivial = negative probe whose twin compiles / sequence with >=1 low-level call on a consuming kind".to_string();
             ctx.run_campaign(&Campaign {
                 name: "seq-safe-call-sequences".into(),
-                cases: scale_cases(ctx, 100_000, 50),
+                cases: scale_cases(ctx, PLAIN_BOOST * 100_000, 50),
                 make_strategy: &|| case_strategy(&cfg),
                 run: &eval_c14_seq,
                 rule: rule.clone(),
@@ -764,7 +767,7 @@ pub fn check(ctx: &mut Ctx) -> Option<Meta> {
             let rule = "E2/E3 histories on consuming kinds (Vec with capacity > len, [T;N], owning wrapped iterator) with element layouts {zero-sized, 24 bytes, Box, String}, ending in drop or into_seq_iter; the whole case runs inside a gated counting allocator and is executed twice; oracle: allocation balance (bytes and blocks) exactly zero in both runs; second campaign: the same after concurrent use by 2-3 real threads; non-trivial = the source owned heap memory and the case ends with an undelivered part or a live chunk buffer; distinct by case hash".to_string();
             ctx.run_campaign(&Campaign {
                 name: "seq-alloc-balance".into(),
-                cases: scale_cases(ctx, 100_000, 30),
+                cases: scale_cases(ctx, PLAIN_BOOST * 100_000, 30),
                 make_strategy: &|| case_strategy(&cfg),
                 run: &eval_c15_seq,
                 rule: rule.clone(),
@@ -784,7 +787,7 @@ pub fn check(ctx: &mut Ctx) -> Option<Meta> {
             cfg_f.fault_sites = vec![FaultSite::Closure, FaultSite::Closure, FaultSite::ProbeNext];
             ctx.run_campaign(&Campaign {
                 name: "seq-alloc-balance-after-panic".into(),
-                cases: scale_cases(ctx, 40_000, 30),
+                cases: scale_cases(ctx, PLAIN_BOOST * 40_000, 30),
                 make_strategy: &|| case_strategy(&cfg_f),
                 run: &eval_c15_seq,
                 rule: "the same balance oracle when a for_each / fold closure or the wrapped iterator panics at a generated point (caught by the caller); everything is dropped afterwards".into(),
